@@ -10,7 +10,7 @@ LEAN_MODULE = "Signac.Properties.C03"
 DRIVER = "drv_ws"
 DESIGN_REF = "DESIGN.md §4 C03"
 RULE = ("operation sequences over <=4 state point keys x {0,1,'x'} (every 3rd sequence: rich values incl. 1.0/True/None/"
-        "lists/sub-mappings), 3 file names (one nested), 2 projects, several live handles per job (fresh, by id / prefix, "
+        "lists/sub-mappings), 5 file names (one nested, two that look like temp / backup files: `._run_0.log`, `sub/notes.txt~`), 2 projects, several live handles per job (fresh, by id / prefix, "
         "copy.copy, deepcopy, pickle round trip in-process and via a freshly started interpreter), foreign directories "
         "planted in the workspace; quick: exhaustive sequences of length<=3 over a reduced alphabet + random length 25; "
         "after EVERY step a fresh Project is compared with the plain reference model (ids, state points, documents, file "
